@@ -70,9 +70,14 @@ def _worker(args):
         amod = importlib.import_module("contracts." + home) if home is not None else mod
         if hasattr(amod, "AXIOMS"):
             axioms = amod.AXIOMS(c) if callable(amod.AXIOMS) else list(amod.AXIOMS)
+        n_unknown = 0
         for vc in res.vcs:
             vc.hyps = list(axioms) + vc.hyps
-            d = smt.discharge(vc, timeout_ms, cross=cross)
+            d = smt.discharge(vc, timeout_ms, cross=cross, light=n_unknown >= 4)
+            if d["status"] == "unknown":
+                n_unknown += 1
+                if n_unknown > 4:
+                    d["reason"] = (d.get("reason") or "") + " (short budget: this contract already had 4 undecided obligations)"
             d.pop("z3model", None)
             d["kind"] = vc.kind
             d["line"] = vc.line
